@@ -14,6 +14,10 @@
 //                      fill (nng_sendmsg NONBLOCK until it fails, at most 64, so that later sends block)
 //   order  sock sock2 ctxsock ctx2 epsock ep2 pipesock seq opsock
 //          extensions: opsockc / opsockd (opsock whose loop leaves out the dialer / the context calls)
+//          lateop: white-box replay of the interleaving inside nng_socket_send / nng_socket_recv in which the
+//                  operation obtains its socket reference (nni_sock_find) before the close begins and reaches
+//                  the protocol (nni_sock_send / nni_sock_recv) only while close is waiting for that reference;
+//                  pending operations lsend / lrecv
 //   seed   PRNG seed for the 0..3 ms pre-close sleeps
 //   delay  "-" or point:usec[,point:usec...] for nng_verif_delay_hook
 // Observation lines: B R C O H N E W, see the comments at the printing sites.
@@ -333,6 +337,8 @@ struct scn {
 	op_t           ops[MAXOPS];
 	int            nops;
 	op_t          *devop;
+	nni_sock      *latesock;  // order lateop: the reference an operation in flight holds
+	op_t          *lateop[2]; // order lateop: its send and its receive
 	int            naddr;
 	uint32_t       rng;
 };
@@ -1036,7 +1042,7 @@ setup_shape(scn_t *sc, const char *shape)
 
 // ---------------------------------------------------------------------------
 // closers
-enum { A_CTX, A_DIALER, A_LISTENER, A_PIPE, A_SOCK, A_OPS };
+enum { A_CTX, A_DIALER, A_LISTENER, A_PIPE, A_SOCK, A_OPS, A_LATE };
 enum { OPS_CTX = 1, OPS_DIALER = 2 }; // idx of an A_OPS action: which handle-creating calls the loop makes
 
 typedef struct {
@@ -1163,6 +1169,9 @@ closer_run(closer_t *c)
 		case A_SOCK:
 			snprintf(r->what, sizeof(r->what), "sock%s", c->suffix);
 			break;
+		case A_LATE:
+			snprintf(r->what, sizeof(r->what), "lateop");
+			break;
 		default:
 			snprintf(r->what, sizeof(r->what), "opsloop");
 			break;
@@ -1188,6 +1197,17 @@ closer_run(closer_t *c)
 		case A_SOCK:
 			rv = nng_socket_close(sc->s);
 			break;
+		case A_LATE:
+			// the reference was taken before the closers started (run_order); the other closer is by
+			// now inside nng_socket_close, waiting for it
+			nng_msleep(40);
+			if (sc->latesock != NULL) {
+				if (sc->lateop[0] != NULL && sc->lateop[0]->aio != NULL) nni_sock_send(sc->latesock, sc->lateop[0]->aio);
+				if (sc->lateop[1] != NULL && sc->lateop[1]->aio != NULL) nni_sock_recv(sc->latesock, sc->lateop[1]->aio);
+				nni_sock_rele(sc->latesock);
+				sc->latesock = NULL;
+			}
+			break;
 		default:
 			c->opscount = ops_loop(sc, (k & OPS_CTX) != 0, (k & OPS_DIALER) != 0);
 			break;
@@ -1195,7 +1215,7 @@ closer_run(closer_t *c)
 		r->ms = (long) (now_ms() - t0);
 		wd_end(sl);
 		r->rv = rv;
-		if (c->type[i] != A_OPS) c->nrecs++;
+		if (c->type[i] != A_OPS && c->type[i] != A_LATE) c->nrecs++;
 	}
 }
 
@@ -1289,6 +1309,17 @@ run_order(scn_t *sc, const char *order)
 		closer_add(&a, A_OPS, order[6] == 'c' ? OPS_CTX : order[6] == 'd' ? OPS_DIALER : (OPS_CTX | OPS_DIALER), 0);
 		a.opscount = 0;
 		b.suffix   = "";
+		closer_add(&b, A_SOCK, 0, 0);
+		nthr = 2;
+	} else if (strcmp(order, "lateop") == 0) {
+		op_t *o;
+		sc->latesock = NULL;
+		sc->lateop[0] = sc->lateop[1] = NULL;
+		if (nni_sock_find(&sc->latesock, sc->s.id) != 0) sc->latesock = NULL;
+		if ((o = op_new(sc, OP_ASEND, "lsend")) != NULL && op_prep_aio(o, 1) == 0) sc->lateop[0] = o;
+		if ((o = op_new(sc, OP_ARECV, "lrecv")) != NULL && op_prep_aio(o, 0) == 0) sc->lateop[1] = o;
+		closer_add(&a, A_LATE, 0, 0);
+		b.suffix = "";
 		closer_add(&b, A_SOCK, 0, 0);
 		nthr = 2;
 	} else {
@@ -1671,16 +1702,281 @@ stress_mode(void)
 }
 
 // ---------------------------------------------------------------------------
-// SCRIPT MODE STUB -- to be filled in later.  Reusable pieces: protos[] /
-// proto_find / open_by_name, tran_find, the watchdog (wd_begin / wd_end /
-// wd_set_id), op_t with op_finish / op_result (result slots), op_thread /
-// op_aio_cb, pipe_cb, sock_listen / raw_listen / raw_connect / addr_unused,
-// closer_t, the h_* handle probes and quiesce2s.
+// SCRIPT MODE: the deterministic part.  One command per line, executed by this thread; after
+// each command the library is brought to quiescence (hook H2q) and one observation line is
+// printed.  ocaml/drv_c10.ml runs the same script on Core/CloseModel.v.
+//   mark <k>                          new case (everything of the previous case is closed and released)
+//   open <proto> ...                  the socket of the case (further tokens are for the model)
+//   ctx                               nng_ctx_open                 -> c<k>, k = creation order
+//   dialer | listener                 nng_dialer_create (inproc, nobody listens) / nng_listener_create + start
+//                                     (telnet:// = the deterministic transport) -> ep<k>
+//   conn ep<k> <peer-proto-number>    a pipe appears on listener ep<k>          -> p<k>
+//   recv|send s|c<k> a<i> [flag]      asynchronous operation with aio a<i> (flag is for the model)
+//   dstart ep<k> a<i>                 nng_dialer_start_aio(d, NNG_FLAG_NONBLOCK, a<i>)
+//   close s | c<k> | ep<k> | p<k>     the close call of that handle
+//   probe                             nothing
+// observation:  rv=<n> done=<a<i>:<rv>,...|-> h=<handle>:<ok|errno>,...
+//   done = operations that reached their result since the previous line (sorted by aio number),
+//   h    = for every handle of the case the result of a find-type call (ok = the handle is valid).
+#define SC_MAXAIO 64
+typedef struct {
+	nng_aio *aio;
+	int      idx;
+	int      used, done, reported, rv, is_send;
+} sc_aio_t;
+static sc_aio_t        sc_aios[SC_MAXAIO];
+static pthread_mutex_t sc_mtx = PTHREAD_MUTEX_INITIALIZER;
+
+static void
+sc_aio_cb(void *arg)
+{
+	sc_aio_t *a  = arg;
+	int       rv = (int) nng_aio_result(a->aio);
+	nng_msg  *m  = nng_aio_get_msg(a->aio);
+	if (m != NULL && (rv == 0) != (a->is_send != 0)) {
+		// a received message, or the message of a failed send, is ours to release
+		nng_aio_set_msg(a->aio, NULL);
+		nng_msg_free(m);
+	}
+	pthread_mutex_lock(&sc_mtx);
+	a->done = 1;
+	a->rv   = rv;
+	pthread_mutex_unlock(&sc_mtx);
+}
+
+typedef struct {
+	int          open;
+	const proto_t *proto;
+	nng_socket   s;
+	nng_ctx      ctx[MAXCTX];
+	int          nctx;
+	int          ep_isdialer[MAXEP];
+	nng_dialer   epd[MAXEP];
+	nng_listener epl[MAXEP];
+	vt_ep       *epv[MAXEP];
+	int          nep;
+	uint32_t     pipeid[MAXPIPE];
+	int          npipe;
+} sc_case_t;
+static sc_case_t scc;
+static int       sc_serial;
+
+static void
+sc_reset(void)
+{
+	if (scc.open) {
+		int sl = wd_begin("script:close");
+		(void) nng_socket_close(scc.s);
+		wd_end(sl);
+	}
+	(void) quiesce2s();
+	for (int i = 0; i < SC_MAXAIO; i++) {
+		if (sc_aios[i].used && sc_aios[i].aio != NULL) {
+			int sl = wd_begin("script:aio");
+			nng_aio_cancel(sc_aios[i].aio);
+			nng_aio_wait(sc_aios[i].aio);
+			nng_aio_free(sc_aios[i].aio);
+			wd_end(sl);
+		}
+	}
+	memset(sc_aios, 0, sizeof(sc_aios));
+	memset(&scc, 0, sizeof(scc));
+}
+
+static sc_aio_t *
+sc_aio_get(const char *tok, int is_send)
+{
+	int i = atoi(tok + 1);
+	if (tok[0] != 'a' || i < 0 || i >= SC_MAXAIO || sc_aios[i].used) return (NULL);
+	sc_aio_t *a = &sc_aios[i];
+	a->idx      = i;
+	a->is_send  = is_send;
+	if (nng_aio_alloc(&a->aio, sc_aio_cb, a) != 0) return (NULL);
+	nng_aio_set_timeout(a->aio, NNG_DURATION_INFINITE);
+	a->used = 1;
+	return (a);
+}
+
+static const char *
+sc_hv(int rv, char *buf, size_t n)
+{
+	if (rv == NNG_ECLOSED || rv == NNG_ENOENT) {
+		snprintf(buf, n, "%d", rv);
+	} else {
+		snprintf(buf, n, "ok");
+	}
+	return (buf);
+}
+
+static void
+sc_observe(int rv)
+{
+	char line[4096];
+	int  n = 0, first = 1;
+	char b[16];
+	(void) quiesce2s();
+	n += snprintf(line + n, sizeof(line) - n, "rv=%d done=", rv);
+	pthread_mutex_lock(&sc_mtx);
+	for (int i = 0; i < SC_MAXAIO; i++) {
+		if (sc_aios[i].used && sc_aios[i].done && !sc_aios[i].reported) {
+			sc_aios[i].reported = 1;
+			n += snprintf(line + n, sizeof(line) - n, "%sa%d:%d", first ? "" : ",", i, sc_aios[i].rv);
+			first = 0;
+		}
+	}
+	pthread_mutex_unlock(&sc_mtx);
+	if (first) n += snprintf(line + n, sizeof(line) - n, "-");
+	n += snprintf(line + n, sizeof(line) - n, " h=");
+	if (scc.proto != NULL) {
+		nng_duration ms;
+		size_t       sz;
+		n += snprintf(line + n, sizeof(line) - n, "s:%s", sc_hv(nng_socket_get_ms(scc.s, NNG_OPT_RECVTIMEO, &ms), b, sizeof(b)));
+		for (int k = 0; k < scc.nctx; k++) {
+			n += snprintf(line + n, sizeof(line) - n, ",c%d:%s", k, sc_hv(nng_ctx_get_ms(scc.ctx[k], NNG_OPT_RECVTIMEO, &ms), b, sizeof(b)));
+		}
+		for (int k = 0; k < scc.nep; k++) {
+			int r = scc.ep_isdialer[k] ? nng_dialer_get_ms(scc.epd[k], NNG_OPT_RECONNMINT, &ms)
+			                           : nng_listener_get_size(scc.epl[k], NNG_OPT_RECVMAXSZ, &sz);
+			n += snprintf(line + n, sizeof(line) - n, ",ep%d:%s", k, sc_hv(r, b, sizeof(b)));
+		}
+		for (int k = 0; k < scc.npipe; k++) {
+			nng_pipe p = NNG_PIPE_INITIALIZER;
+			p.id       = scc.pipeid[k];
+			n += snprintf(line + n, sizeof(line) - n, ",p%d:%s", k, sc_hv((int) nng_pipe_get_size(p, NNG_OPT_RECVMAXSZ, &sz), b, sizeof(b)));
+		}
+	} else {
+		n += snprintf(line + n, sizeof(line) - n, "-");
+	}
+	printf("%s\n", line);
+}
+
 static int
 script_mode(void)
 {
-	fprintf(stderr, "wb_close: script mode is not implemented yet\n");
-	return (2);
+	char  buf[512];
+	char *tok[8];
+	while (fgets(buf, sizeof(buf), stdin) != NULL) {
+		int   nt = 0, rv = 0, sl;
+		char *sv = NULL;
+		for (char *x = strtok_r(buf, " \t\r\n", &sv); x != NULL && nt < 8; x = strtok_r(NULL, " \t\r\n", &sv)) tok[nt++] = x;
+		if (nt == 0 || tok[0][0] == '#') continue;
+		if (strcmp(tok[0], "mark") == 0) {
+			sc_reset();
+			printf("mark %s\n", nt > 1 ? tok[1] : "0");
+			continue;
+		}
+		wd_set_id("script");
+		sl = wd_begin(tok[0]);
+		if (strcmp(tok[0], "open") == 0 && nt >= 2) {
+			scc.proto = proto_find(tok[1]);
+			rv        = open_by_name(tok[1], &scc.s);
+			scc.open  = (rv == 0);
+			if (rv == 0 && strncmp(tok[1], "surveyor0", 9) == 0 && strstr(tok[1], "_raw") == NULL) {
+				(void) nng_socket_set_ms(scc.s, NNG_OPT_SURVEYOR_SURVEYTIME, 600000); // no real-time expiry inside a case
+			}
+		} else if (strcmp(tok[0], "ctx") == 0) {
+			if (scc.nctx < MAXCTX) {
+				rv = nng_ctx_open(&scc.ctx[scc.nctx], scc.s);
+				if (rv == 0) scc.nctx++;
+			} else {
+				rv = NNG_ENOMEM;
+			}
+		} else if (strcmp(tok[0], "dialer") == 0 || strcmp(tok[0], "listener") == 0) {
+			char url[96];
+			int  k = scc.nep;
+			if (k >= MAXEP) {
+				rv = NNG_ENOMEM;
+			} else if (tok[0][0] == 'd') {
+				snprintf(url, sizeof(url), "inproc://c10s-%d-%d", (int) getpid(), ++sc_serial);
+				rv = nng_dialer_create(&scc.epd[k], scc.s, url);
+				scc.ep_isdialer[k] = 1;
+				if (rv == 0) scc.nep++;
+			} else {
+				snprintf(url, sizeof(url), "telnet://c10s-%d", ++sc_serial);
+				rv = nng_listener_create(&scc.epl[k], scc.s, url);
+				if (rv == 0) {
+					nni_mtx_lock(&vt_mtx);
+					scc.epv[k] = vt_last_ep;
+					nni_mtx_unlock(&vt_mtx);
+					scc.ep_isdialer[k] = 0;
+					scc.nep++;
+					rv = nng_listener_start(scc.epl[k], 0);
+				}
+			}
+		} else if (strcmp(tok[0], "conn") == 0 && nt >= 3) {
+			int k = atoi(tok[1] + 2);
+			if (k < 0 || k >= scc.nep || scc.ep_isdialer[k] || scc.npipe >= MAXPIPE) {
+				rv = NNG_EINVAL;
+			} else {
+				int idx = vt_connect(scc.epv[k], (uint16_t) atoi(tok[2]));
+				if (idx < 0) {
+					rv = -idx;
+				} else {
+					(void) quiesce2s();
+					scc.pipeid[scc.npipe++] = vt_pipe_ids[idx];
+				}
+			}
+		} else if ((strcmp(tok[0], "recv") == 0 || strcmp(tok[0], "send") == 0) && nt >= 3) {
+			int       is_send = tok[0][0] == 's';
+			sc_aio_t *a       = sc_aio_get(tok[2], is_send);
+			if (a == NULL) {
+				rv = NNG_EINVAL;
+			} else {
+				if (is_send) {
+					nng_msg *m = NULL;
+					scn_t    tmp;
+					memset(&tmp, 0, sizeof(tmp));
+					tmp.proto = scc.proto;
+					if (mk_msg(&tmp, &m) == 0) nng_aio_set_msg(a->aio, m);
+				}
+				if (tok[1][0] == 'c') {
+					int     k = atoi(tok[1] + 1);
+					nng_ctx c = NNG_CTX_INITIALIZER;
+					if (k >= 0 && k < scc.nctx) c = scc.ctx[k];
+					if (is_send) nng_ctx_send(c, a->aio); else nng_ctx_recv(c, a->aio);
+				} else {
+					if (is_send) nng_socket_send(scc.s, a->aio); else nng_socket_recv(scc.s, a->aio);
+				}
+			}
+		} else if (strcmp(tok[0], "dstart") == 0 && nt >= 3) {
+			int       k = atoi(tok[1] + 2);
+			sc_aio_t *a = sc_aio_get(tok[2], 0);
+			if (a == NULL || k < 0 || k >= scc.nep || !scc.ep_isdialer[k]) {
+				rv = NNG_EINVAL;
+			} else {
+				nng_dialer_start_aio(scc.epd[k], NNG_FLAG_NONBLOCK, a->aio);
+			}
+		} else if (strcmp(tok[0], "close") == 0 && nt >= 2) {
+			if (tok[1][0] == 's') {
+				rv = nng_socket_close(scc.s);
+				if (rv == 0) scc.open = 0;
+			} else if (tok[1][0] == 'c') {
+				int     k = atoi(tok[1] + 1);
+				nng_ctx c = NNG_CTX_INITIALIZER;
+				if (k >= 0 && k < scc.nctx) c = scc.ctx[k];
+				rv = nng_ctx_close(c);
+			} else if (tok[1][0] == 'e') {
+				int k = atoi(tok[1] + 2);
+				if (k < 0 || k >= scc.nep) rv = NNG_EINVAL;
+				else rv = scc.ep_isdialer[k] ? nng_dialer_close(scc.epd[k]) : nng_listener_close(scc.epl[k]);
+			} else if (tok[1][0] == 'p') {
+				int      k = atoi(tok[1] + 1);
+				nng_pipe p = NNG_PIPE_INITIALIZER;
+				if (k >= 0 && k < scc.npipe) p.id = scc.pipeid[k];
+				rv = (int) nng_pipe_close(p);
+			} else {
+				rv = NNG_EINVAL;
+			}
+		} else if (strcmp(tok[0], "probe") == 0) {
+			rv = 0;
+		} else {
+			rv = NNG_EINVAL;
+		}
+		wd_end(sl);
+		sc_observe(rv);
+	}
+	sc_reset();
+	return (0);
 }
 
 int
